@@ -6,6 +6,7 @@
 -/
 import GeonumModel.Lemmas.AngleStep
 import GeonumModel.Spec.RealWitness
+import GeonumModel.Spec.RoundWitness
 
 set_option linter.unusedSectionVars false
 set_option linter.unusedVariables false
@@ -169,5 +170,17 @@ example : (⟨(1:ℝ), 7⟩ : Angle ℝ).Inv := by
   have : (1:ℝ) / 10 ^ 9 ≤ 1 / 2 := by norm_num
   show (1:ℝ) + _ ≤ _
   linarith
+
+
+/-! ### R — on the arithmetic that really rounds (`R64`: round-to-nearest on the binary64 grid, correctly rounded libm) -/
+section R
+
+/-- (R) angle addition on binary64 remainders: bitwise commutative, and associative up to twice the tolerance -/
+theorem add_comm_assoc_rounded {a b c : Angle R64} (ha : a.Inv) (hb : b.Inv) (hc : c.Inv) :
+    a.geometricAdd b = b.geometricAdd a ∧
+    |T ((a.geometricAdd b).geometricAdd c) - T (a.geometricAdd (b.geometricAdd c))| < 2 * ((e10 : R64).v + 2 / 10 ^ 15) :=
+  ⟨add_comm (F := R64) trivial trivial, add_assoc_total (F := R64) ha hb hc⟩
+
+end R
 
 end GeonumModel.C03
